@@ -14,6 +14,7 @@ structure Case where
   intervalNs : Nat      -- tick interval of the flow that owns `panicSite`
   latencyNs  : Nat      -- virtual latency of a pipeline call
   services   : Nat      -- recoverers per plugin
+  auxMax     : Nat      -- helper goroutines all services of one plugin own together (cache GCs, worker-group loops)
 deriving DecidableEq, Repr
 
 /-- canonical observation -/
@@ -26,9 +27,12 @@ structure Obs where
   errOther           : Nat    -- any other Close error
   leakedServiceStart : Nat    -- `recoverer.serviceStart` goroutines alive 35 virtual seconds after Close
   leakedService      : Nat    -- service loops alive then
-  leakedOther        : Nat    -- helper / in-flight goroutines of the repository alive then
+  leakedAux          : Nat    -- helper goroutines owned by a service (cache GC, worker-group loops) alive then
+  leakedInflight     : Nat    -- any other goroutine of the repository alive then (a Process / worker in the middle of a call)
   ticking            : Bool   -- provider calls between Close+25s and Close+35s, or a block subscription still registered
   bubbleEnded        : Bool   -- after a second Close every goroutine ended (the synctest bubble could be left)
+  after2ndServiceStart : Nat  -- `recoverer.serviceStart` goroutines alive 12 virtual seconds after the second Close
+  after2ndService    : Nat    -- service loops alive then
   panicsInjected     : Nat
   resumed            : Bool   -- scenario "panic": the site was called again (without panicking) after the last panic
   resumedWithinNs    : Nat
@@ -37,7 +41,7 @@ deriving DecidableEq, Repr
 
 /-- something of the instance is still there after Close -/
 def Obs.leak (o : Obs) : Bool :=
-  decide (o.leakedServiceStart > 0) || decide (o.leakedService > 0) || decide (o.leakedOther > 0) || o.ticking || !o.bubbleEnded
+  decide (o.leakedServiceStart > 0) || decide (o.leakedService > 0) || decide (o.leakedAux > 0) || decide (o.leakedInflight > 0) || o.ticking || !o.bubbleEnded
 
 /-- the bound of the property: "the affected flow resumes after at most the restart cool-down" (+ its own tick and
     one pipeline latency) -/
@@ -45,38 +49,85 @@ def resumeBound (cs : Case) : Nat := cs.coolDownNs + cs.intervalNs + cs.latencyN
 
 def panicClauseApplies (cs : Case) (o : Obs) : Bool := cs.scenario == "panic" && decide (o.panicsInjected > 0)
 
+/-- the panic clause of `spec` -/
+def panicOk (cs : Case) (o : Obs) : Bool :=
+  !panicClauseApplies cs o || (o.resumed && decide (o.resumedWithinNs ≤ resumeBound cs) && o.othersTicked)
+
 /-- C18 on one case -/
 def spec (cs : Case) (o : Obs) : Bool :=
   o.survived &&
   (!o.closeCalled || o.closeReturned) &&
   !o.leak &&
-  (!panicClauseApplies cs o || (o.resumed && decide (o.resumedWithinNs ≤ resumeBound cs) && o.othersTicked))
+  panicOk cs o
 
-/-- which conjunct fails, in stable words; the FIRST string is the known finding (a), every other failure
-    has a different prefix -/
-def explain (cs : Case) (o : Obs) : String :=
-  let n := o.errNotRunning
-  let k := o.errNotStarted
-  if !o.survived then
-    s!"panic-escaped: a panic injected in {cs.panicSite} terminated the process"
-  else if o.closeCalled && !o.closeReturned then
-    "close-did-not-return: Close had not returned when the case ended"
+/-- the leak is exactly what schedule (a) leaves behind, and nothing else is wrong with the case:
+    only not-running errors, one serviceStart and one service loop per such error, no more helpers than the services
+    own, the panic clause (if any) satisfied, and EVERYTHING gone after a second Close (`bubbleEnded`) — which is what
+    tells work in flight of the still running services (expected) from anything stuck -/
+def isCloseBeforeRunning (cs : Case) (o : Obs) : Bool :=
+  decide (o.errNotStarted = 0) && decide (o.errNotRunning > 0) && decide (o.errOther = 0) &&
+  decide (o.leakedServiceStart = o.errNotRunning) && decide (o.leakedService = o.errNotRunning) &&
+  decide (o.leakedAux ≤ cs.auxMax) && o.bubbleEnded && panicOk cs o
+
+/-- the leak is exactly what schedules (b) (and (a) on the other recoverers) leave behind, and nothing else is wrong:
+    one service loop per refused or not-running Close, one serviceStart per not-running Close, and after a second
+    Close exactly the refused services — no serviceStart — are still there -/
+def isCloseBeforeServiceStart (cs : Case) (o : Obs) : Bool :=
+  decide (o.errNotStarted > 0) && decide (o.errOther = 0) &&
+  decide (o.leakedService = o.errNotRunning + o.errNotStarted) && decide (o.leakedServiceStart = o.errNotRunning) &&
+  decide (o.leakedAux ≤ cs.auxMax) && !o.bubbleEnded &&
+  decide (o.after2ndService = o.errNotStarted) && decide (o.after2ndServiceStart = 0) && panicOk cs o
+
+/-- which conjunct fails (first match) -/
+inductive Verdict
+  | ok | panicEscaped | closeDidNotReturn
+  | closeBeforeRunning        -- KNOWN FINDING (a)
+  | closeBeforeServiceStart   -- KNOWN FINDING (b)
+  | leakAndPanic | closeSignalDropped | leakUnexplained
+  | panicNotResumed | panicResumedLate | panicStalledOthers
+deriving DecidableEq, Repr
+
+def classify (cs : Case) (o : Obs) : Verdict :=
+  if !o.survived then .panicEscaped
+  else if o.closeCalled && !o.closeReturned then .closeDidNotReturn
   else if o.leak then
-    if k = 0 ∧ n > 0 ∧ o.errOther = 0 ∧ o.leakedServiceStart = n ∧ o.leakedService = n ∧ o.bubbleEnded then
-      s!"close-before-running: Close returned not-running for {n} services and they kept running"
-    else if k > 0 ∧ o.leakedService = n + k ∧ o.leakedServiceStart = n then
-      s!"close-before-service-start: Close was refused by {k} services that had not completed their start (not-running for {n} more); they started afterwards and can no longer be closed"
-    else if o.leakedServiceStart > n ∧ o.leakedService = n + k then
-      s!"close-signal-dropped: {o.leakedServiceStart - n} serviceStart goroutines outlive a Close that reported no error for them"
-    else
-      s!"leak-unexplained: after Close {o.leakedServiceStart} serviceStart, {o.leakedService} service and {o.leakedOther} other goroutines remain (ticking={o.ticking}, bubbleEnded={o.bubbleEnded}) with close errors not-running={n} not-started={k} other={o.errOther}"
-  else if panicClauseApplies cs o && !o.resumed then
-    s!"panic-not-resumed: the flow calling {cs.panicSite} did not resume within the cool-down plus one tick after the panic"
-  else if panicClauseApplies cs o && !decide (o.resumedWithinNs ≤ resumeBound cs) then
-    s!"panic-resumed-late: the flow calling {cs.panicSite} resumed later than the cool-down plus one tick"
-  else if panicClauseApplies cs o && !o.othersTicked then
-    "panic-stalled-others: another flow stopped ticking during the cool-down"
-  else "ok"
+    if isCloseBeforeRunning cs o then .closeBeforeRunning
+    else if isCloseBeforeServiceStart cs o then .closeBeforeServiceStart
+    else if !panicOk cs o then .leakAndPanic
+    else if decide (o.leakedServiceStart > o.errNotRunning) && decide (o.leakedService = o.errNotRunning + o.errNotStarted) &&
+            decide (o.errOther = 0) && decide (o.leakedInflight = 0) then .closeSignalDropped
+    else .leakUnexplained
+  else if panicClauseApplies cs o && !o.resumed then .panicNotResumed
+  else if panicClauseApplies cs o && !decide (o.resumedWithinNs ≤ resumeBound cs) then .panicResumedLate
+  else if panicClauseApplies cs o && !o.othersTicked then .panicStalledOthers
+  else .ok
+
+/-- stable words per verdict.  The two KNOWN FINDINGS are the strings starting `close-before-running:` and
+    `close-before-service-start:`; each verdict has its own prefix, and `classify` yields those two verdicts only
+    when the process survived, Close returned, and `isCloseBeforeRunning` / `isCloseBeforeServiceStart` hold
+    (Props: `known_finding_a_exclusive`, `known_finding_b_exclusive`) — any additional or different defect in the
+    same case yields another prefix. -/
+def render (cs : Case) (o : Obs) : Verdict → String
+  | .ok => "ok"
+  | .panicEscaped => s!"panic-escaped: a panic injected in {cs.panicSite} terminated the process"
+  | .closeDidNotReturn => "close-did-not-return: Close had not returned when the case ended"
+  | .closeBeforeRunning => s!"close-before-running: Close returned not-running for {o.errNotRunning} services and they kept running"
+  | .closeBeforeServiceStart => s!"close-before-service-start: Close was refused by {o.errNotStarted} services that had not completed their start (not-running for {o.errNotRunning} more); they started afterwards and can no longer be closed"
+  | .leakAndPanic => s!"leak-and-panic: goroutines remain after Close and the flow calling {cs.panicSite} did not resume in time after a panic"
+  | .closeSignalDropped => s!"close-signal-dropped: {o.leakedServiceStart - o.errNotRunning} serviceStart goroutines outlive a Close that reported no error for them"
+  | .leakUnexplained => s!"leak-unexplained: after Close {o.leakedServiceStart} serviceStart, {o.leakedService} service, {o.leakedAux} helper and {o.leakedInflight} in-flight goroutines remain (ticking={o.ticking}, bubbleEnded={o.bubbleEnded}) with close errors not-running={o.errNotRunning} not-started={o.errNotStarted} other={o.errOther}"
+  | .panicNotResumed => s!"panic-not-resumed: the flow calling {cs.panicSite} did not resume within the cool-down plus one tick after the panic"
+  | .panicResumedLate => s!"panic-resumed-late: the flow calling {cs.panicSite} resumed later than the cool-down plus one tick"
+  | .panicStalledOthers => "panic-stalled-others: another flow stopped ticking during the cool-down"
+
+def explain (cs : Case) (o : Obs) : String := render cs o (classify cs o)
+
+/-- tag of a failing verdict (the known findings are matched on fail string AND tag) -/
+def Verdict.tag : Verdict → String
+  | .ok => "" | .panicEscaped => "panic-escaped" | .closeDidNotReturn => "close-did-not-return"
+  | .closeBeforeRunning => "close-before-running" | .closeBeforeServiceStart => "close-before-service-start"
+  | .leakAndPanic => "leak-and-panic" | .closeSignalDropped => "close-signal-dropped" | .leakUnexplained => "leak-unexplained"
+  | .panicNotResumed => "panic-not-resumed" | .panicResumedLate => "panic-resumed-late" | .panicStalledOthers => "panic-stalled-others"
 
 /-! ### the model's prediction for a case
 
@@ -84,15 +135,18 @@ The harness cannot see program counters; what it does see is, per recoverer, the
 returned.  Each kind selects the canonical schedule of the model with that outcome (Model: `predictClose`),
 the fault site selects the kind of goroutine that panics. -/
 
-/-- fault schedule on a settled instance for a panic at `site` (fixed ticker) -/
-def faultSched (site : String) : List Label :=
+/-- fault schedule on a settled instance for a panic at `site`; after an uncontained poll panic the recoverer's
+    cool-down and restart attempt are played out, so that "resumed" means "the service loop runs when the cool-down is over" -/
+def faultSched (fx : Fixes) (site : String) : List Label :=
   if site == "pipeline" then [.tick, .pJob, .wPanic]
-  else if site == "eventsProvider" then [.core .gPanic, .core .gSendStopped, .core .coolElapsed, .core .sRespawn, .core .sSel, .core .gCall, .core .gSendErr, .core .sSel]
+  else if site == "eventsProvider" then
+    (if fx.poll then [.pollPanic]
+     else [.pollPanic, .core .gSendStopped, .core .coolElapsed, .core .sRespawn, .core .sSel, .core .gCall, .core .gSendErr, .core .sSel])
   else if site == "" then []
   else [.tick, .pPanic]
 
-def predict (cs : Case) (nNotRunning nNotStarted : Nat) (closeCalled : Bool) (panics : Nat) : Obs :=
-  let after := if panics > 0 then run true settledS (faultSched cs.panicSite) else some settledS
+def predict (fx : Fixes) (cs : Case) (nNotRunning nNotStarted : Nat) (closeCalled : Bool) (panics : Nat) : Obs :=
+  let after := if panics > 0 then run fx settledS (faultSched fx cs.panicSite) else some settledS
   let survived := match after with
     | some s => !s.crashed
     | none => true
@@ -108,9 +162,10 @@ def predict (cs : Case) (nNotRunning nNotStarted : Nat) (closeCalled : Bool) (pa
   let sv := nNotRunning * la.service + nNotStarted * lb.service + nOk * lo.service
   { survived := survived, closeCalled := closeCalled && survived, closeReturned := closeCalled && survived,
     errNotRunning := nNotRunning, errNotStarted := nNotStarted, errOther := 0,
-    leakedServiceStart := if closeCalled then ss else 0, leakedService := if closeCalled then sv else 0, leakedOther := 0,
+    leakedServiceStart := if closeCalled then ss else 0, leakedService := if closeCalled then sv else 0, leakedAux := 0, leakedInflight := 0,
     ticking := closeCalled && decide (sv > 0),
     bubbleEnded := survived && decide (nNotStarted = 0),   -- (a) is repaired by a second Close, (b) is not (Props)
+    after2ndServiceStart := 0, after2ndService := if closeCalled then nNotStarted else 0,
     panicsInjected := panics, resumed := resumed, resumedWithinNs := if resumed then cs.intervalNs else 0,
     othersTicked := true }
 
